@@ -78,17 +78,21 @@ extern ssize_t mpt_memtok(const struct iovec *data, size_t ndat, const char *tok
 				break;
 			/* continue until end of line */
 			do {
-				while ( pos++ < len && *(++curr) != '\n' );
-				
-				if ( pos <= len )
-					break;
-				else if ( i >= ndat ) {
-					errno = EAGAIN; return -2;
+				/* continue in next data part */
+				if ( ++pos >= len ) {
+					if ( i >= ndat ) {
+						errno = EAGAIN; return -2;
+					}
+					pos  = 0;
+					curr = data[i].iov_base;
+					if ( !(len = data[i++].iov_len) )
+						continue;
 				}
-				pos  = 0;
-				curr = data[i].iov_base;
-				len  = data[i++].iov_len;
-				
+				else {
+					++curr;
+				}
+				if ( *curr == '\n' )
+					break;
 			} while ( 1 );
 		}
 		/* token is found */
